@@ -573,6 +573,9 @@ func (c *Ctx) c07Loop(g *ssa.Function) {
 				}
 				continue
 			}
+			if why := keepOnlyWhenNothingWritten(e, ph, l.Head, isWn, 0); why != "" {
+				return false, why
+			}
 			for _, a := range alts(e, 0) {
 				if a == ssa.Value(ph) {
 					continue // wn == 0 arm keeps the position
@@ -822,4 +825,64 @@ func impliesTemporaryNetError(h *ssa.Function, p *ssa.Parameter) bool {
 		}
 	}
 	return true
+}
+
+// keepOnlyWhenNothingWritten: v is what a loop-head position phi ph receives on a back edge. Where v merges "the
+// position advanced" with "the position kept" (an inner phi with ph itself on one edge), the kept edge must be
+// taken only when the preceding write reported no bytes (wn <= 0): a position kept after bytes were accepted —
+// on a further condition such as wn < len(b) — makes the retry send those bytes again. Returns a reason, or "".
+func keepOnlyWhenNothingWritten(v ssa.Value, ph *ssa.Phi, head *ssa.BasicBlock, isWn func(ssa.Value) bool, depth int) string {
+	m, ok := v.(*ssa.Phi)
+	if !ok || m.Block() == head || depth > 4 {
+		return ""
+	}
+	nothingWritten := func(rl rel) bool {
+		for _, pr := range [][2]ssa.Value{{rl.a, rl.b}, {rl.b, rl.a}} {
+			a, b := pr[0], pr[1]
+			if !isWn(a) {
+				continue
+			}
+			op := rl.op
+			if a == rl.b { // b op' a
+				switch op {
+				case token.LSS:
+					op = token.GTR
+				case token.GTR:
+					op = token.LSS
+				case token.LEQ:
+					op = token.GEQ
+				case token.GEQ:
+					op = token.LEQ
+				}
+			}
+			if isZeroConst(b) && (op == token.LEQ || op == token.EQL) {
+				return true
+			}
+			if k, isK := flow.ConstInt(b); isK && k == 1 && op == token.LSS {
+				return true
+			}
+		}
+		return false
+	}
+	for i, e := range m.Edges {
+		if e != ssa.Value(ph) {
+			if why := keepOnlyWhenNothingWritten(e, ph, head, isWn, depth+1); why != "" {
+				return why
+			}
+			continue
+		}
+		if i >= len(m.Block().Preds) {
+			continue
+		}
+		ok := false
+		for _, rl := range edgeRels(m.Block().Preds[i], m.Block()) {
+			if nothingWritten(rl) {
+				ok = true
+			}
+		}
+		if !ok {
+			return "the position is kept for the retry on an edge that does not establish that the preceding write accepted nothing (count <= 0): bytes the transport took are sent again"
+		}
+	}
+	return ""
 }
